@@ -868,7 +868,8 @@ def get_next_imf_mask(X, z, amp, nphases=4, nprocesses=1,
     return imfs.mean(axis=1)[:, np.newaxis], np.any(continue_flags)
 
 
-def get_mask_freqs(X, first_mask_mode='zc', imf_opts=None):
+def get_mask_freqs(X, first_mask_mode='zc', imf_opts=None,
+                   envelope_opts=None, extrema_opts=None):
     """Determine mask frequencies for a sift.
 
     Parameters
@@ -880,6 +881,10 @@ def get_mask_freqs(X, first_mask_mode='zc', imf_opts=None):
         and initial frequency. See notes for more details.
     imf_opts : dict
         Options to be passed to get_next_imf if first_mask_mode is 'zc' or 'if'.
+    envelope_opts : dict
+        Optional dictionary of keyword options to be passed to emd.interp_envelope
+    extrema_opts : dict
+        Optional dictionary of keyword options to be passed to emd.get_padded_extrema
 
     Returns
     -------
@@ -894,7 +899,8 @@ def get_mask_freqs(X, first_mask_mode='zc', imf_opts=None):
         logger.info('Computing first mask frequency with method {0}'.format(first_mask_mode))
         logger.info('Getting first IMF with no mask')
         # First IMF is computed normally
-        imf, _ = get_next_imf(X, **imf_opts)
+        imf, _ = get_next_imf(X, envelope_opts=envelope_opts,
+                              extrema_opts=extrema_opts, **imf_opts)
 
     # Compute first mask frequency from first IMF
     if first_mask_mode == 'zc':
@@ -1037,7 +1043,8 @@ def mask_sift(X, mask_amp=1, mask_amp_mode='ratio_imf', mask_freqs='zc',
             max_imfs = len(mask_freqs)
             logger.info("Reducing max_imfs to {0} as len(mask_freqs) < max_imfs".format(max_imfs))
     elif mask_freqs in ['zc', 'if'] or isinstance(mask_freqs, float):
-        z = get_mask_freqs(X, mask_freqs, imf_opts=imf_opts)
+        z = get_mask_freqs(X, mask_freqs, imf_opts=imf_opts,
+                           envelope_opts=envelope_opts, extrema_opts=extrema_opts)
         mask_freqs = np.array([z/mask_step_factor**ii for ii in range(max_imfs)])
 
     _nsamples_warn(X.shape[0], max_imfs)
